@@ -1,5 +1,448 @@
-import Cherab.Model.Admt
+import Cherab.Lemmas.Admt
+import Mathlib.Algebra.Field.Rat
+import Mathlib.Algebra.Order.Ring.Rat
+
+/-!
+# C20 — grid derivative and ADMT operators discretise the operators they claim to
+
+Objects (all from `Model/Admt.lean`, assembled from the *generated* `Gen/Admt.lean`):
+
+* `opTimes nx ny dx dy op v k` — `(generate_derivative_operators(...)[op] @ v)[k]` on the documented layout
+  (`n_x × n_y` voxels, 1-D index `ix·n_y + iy`, `iy` growing downwards), computed from the dense row of the model;
+  `none` = the call raises (`IndexError`).
+* `sample` — a field sampled at the voxel centres `(x0 + ix·dx, y0 − iy·dy)`.
+* `coeffs`, `entry`, `admtEntry` — `calculate_admt`.
+
+Every theorem is for all `n_x, n_y ≥ 2`, all cells, all origins, all non-zero steps, over an arbitrary ordered field.
+-/
 namespace Cherab.Props.C20
-open Cherab.Admt
-theorem placeholder : (1 : Nat) = 1 := rfl
+set_option linter.unusedSectionVars false
+set_option linter.unusedVariables false
+set_option linter.unusedTactic false
+set_option linter.unreachableTactic false
+open Cherab.Admt Cherab.Gen.Admt
+
+variable {α : Type} [Field α] [LinearOrder α] [IsStrictOrderedRing α]
+
+/-- the field `f` sampled at the voxel centres; voxel `k` is `(k / n_y, k % n_y)` -/
+def sample (ny : Nat) (x0 y0 dx dy : α) (f : α → α → α) (k : Nat) : α :=
+  f (x0 + ((k / ny : Nat) : α) * dx) (y0 - ((k % ny : Nat) : α) * dy)
+
+/-- 2-D index of voxel `k` -/
+def cellOf (ny k : Nat) : Int × Int := (((k / ny : Nat) : Int), ((k % ny : Nat) : Int))
+
+/-- `(generate_derivative_operators(...)[op] @ v)[k]`; `none` = `IndexError` -/
+def opTimes (nx ny : Nat) (dx dy : α) (op : Op5) (v : Nat → α) (k : Nat) : Option α :=
+  (rowTable (fullCells nx ny) (cellOf ny k)).map fun t =>
+    dotN (nx * ny) (opEntry (fullCells nx ny) dx dy (cellOf ny k) t op) v
+
+/-- centre of voxel `k` -/
+def cx0 (ny : Nat) (x0 dx : α) (k : Nat) : α := x0 + ((k / ny : Nat) : α) * dx
+def cy0 (ny : Nat) (y0 dy : α) (k : Nat) : α := y0 - ((k % ny : Nat) : α) * dy
+
+/-- interior voxel: not in the first/last column or row -/
+def interiorCell (nx ny k : Nat) : Prop := 0 < k / ny ∧ k / ny + 1 < nx ∧ 0 < k % ny ∧ k % ny + 1 < ny
+
+/-! ### bookkeeping: from the dense row to the stencil of the boundary class -/
+
+theorem cell_bounds {nx ny k : Nat} (hk : k < nx * ny) : k / ny < nx ∧ k % ny < ny := by
+  have hny : 0 < ny := by
+    rcases Nat.eq_zero_or_pos ny with h0 | h0
+    · subst h0; simp at hk
+    · exact h0
+  exact ⟨(Nat.div_lt_iff_lt_mul hny).mpr hk, Nat.mod_lt _ hny⟩
+
+/-- `opTimes` is the stencil of the cell's boundary class applied to the 2-D neighbourhood -/
+theorem opTimes_eq (nx ny k : Nat) (h2x : 2 ≤ nx) (h2y : 2 ≤ ny) (hk : k < nx * ny) :
+    ∃ t, StencilFacts (clsOf nx ny (k / ny) (k % ny)) t ∧ ∀ (op : Op5) (dx dy : α) (v : Nat → α),
+      opTimes nx ny dx dy op v k = some (applyStencil t op dx dy
+        (fun di dj => v ((((k / ny : Nat) : Int) + di).toNat * ny + (((k % ny : Nat) : Int) + dj).toNat))) := by
+  obtain ⟨hx, hy⟩ := cell_bounds hk
+  obtain ⟨t, ht, hf, hd⟩ := dense_dot_eq_stencil (α := α) nx ny (k / ny) (k % ny) hx hy h2x h2y
+  refine ⟨t, hf, ?_⟩
+  intro op dx dy v
+  unfold opTimes cellOf
+  rw [ht, Option.map_some, hd]
+
+/-- on the positions a row actually uses, the sampled polynomial is the polynomial in the offsets -/
+theorem sample_offsets (nx ny k : Nat) (hk : k < nx * ny) (t : Table)
+    (hf : StencilFacts (clsOf nx ny (k / ny) (k % ny)) t) (op : Op5) (dx dy x0 y0 : α) (f : α → α → α) :
+    applyStencil t op dx dy (fun di dj => sample ny x0 y0 dx dy f
+        ((((k / ny : Nat) : Int) + di).toNat * ny + (((k % ny : Nat) : Int) + dj).toNat)) =
+      applyStencil t op dx dy (fun di dj => f (cx0 ny x0 dx k + (di : α) * dx) (cy0 ny y0 dy k - (dj : α) * dy)) := by
+  obtain ⟨hx, hy⟩ := cell_bounds hk
+  apply applyStencil_congr
+  intro p hp
+  have hhas : (clsOf nx ny (k / ny) (k % ny)).has p = true := by
+    by_contra hc
+    exact hp (hf.absent op (Op5.mem_all op) p (Pos.mem_all p) (by simpa using hc))
+  have hin := congrFun (hasOf_full nx ny (k / ny) (k % ny) hx hy) p
+  rw [hhas] at hin
+  unfold hasOf at hin
+  rw [neighbour_full, isSome_ite, decide_eq_true_iff] at hin
+  obtain ⟨h1, h2, h3, h4⟩ := hin
+  obtain ⟨a, ha⟩ := Int.eq_ofNat_of_zero_le h1
+  obtain ⟨b, hb⟩ := Int.eq_ofNat_of_zero_le h3
+  have hb' : b < ny := by rw [hb] at h4; exact_mod_cast h4
+  have e1 : (a * ny + b) / ny = a := by
+    rw [Nat.mul_comm, Nat.mul_add_div (by omega), Nat.div_eq_of_lt hb']; rfl
+  have e2 : (a * ny + b) % ny = b := by
+    rw [Nat.mul_comm, Nat.mul_add_mod, Nat.mod_eq_of_lt hb']
+  have ca : (a : α) = ((k / ny : Nat) : α) + ((p.off.1 : Int) : α) := by
+    have : ((a : Int) : α) = (((k / ny : Nat) : Int) : α) + ((p.off.1 : Int) : α) := by rw [← ha]; push_cast; ring
+    rwa [Int.cast_natCast, Int.cast_natCast] at this
+  have cb : (b : α) = ((k % ny : Nat) : α) + ((p.off.2 : Int) : α) := by
+    have : ((b : Int) : α) = (((k % ny : Nat) : Int) : α) + ((p.off.2 : Int) : α) := by rw [← hb]; push_cast; ring
+    rwa [Int.cast_natCast, Int.cast_natCast] at this
+  simp only [sample, cx0, cy0, ha, hb, Int.toNat_natCast, e1, e2, ca, cb]
+  congr 1 <;> ring
+
+/-- master formula at grid level: any operator applied to a sampled quadratic, in every cell -/
+theorem opTimes_quadratic (nx ny k : Nat) (h2x : 2 ≤ nx) (h2y : 2 ≤ ny) (hk : k < nx * ny) :
+    ∃ t, StencilFacts (clsOf nx ny (k / ny) (k % ny)) t ∧
+      ∀ (op : Op5) (dx dy x0 y0 a0 a1 a2 a3 a4 a5 : α),
+        opTimes nx ny dx dy op (sample ny x0 y0 dx dy (quad a0 a1 a2 a3 a4 a5)) k =
+          some ((quad a0 a1 a2 a3 a4 a5 (cx0 ny x0 dx k) (cy0 ny y0 dy k) * (mom t op 0 0 : α)
+            + (a1 + 2 * a3 * cx0 ny x0 dx k + a4 * cy0 ny y0 dy k) * dx * (mom t op 1 0 : α)
+            - (a2 + a4 * cx0 ny x0 dx k + 2 * a5 * cy0 ny y0 dy k) * dy * (mom t op 0 1 : α)
+            + a3 * dx ^ 2 * (mom t op 2 0 : α) - a4 * (dx * dy) * (mom t op 1 1 : α)
+            + a5 * dy ^ 2 * (mom t op 0 2 : α)) / (4 * scaleDen op dx dy)) := by
+  obtain ⟨t, hf, h⟩ := opTimes_eq (α := α) nx ny k h2x h2y hk
+  refine ⟨t, hf, ?_⟩
+  intro op dx dy x0 y0 a0 a1 a2 a3 a4 a5
+  rw [h, sample_offsets nx ny k hk t hf,
+    applyStencil_quadratic t op (fun p => hf.den op (Op5.mem_all op) p (Pos.mem_all p))]
+
+/-! ### the derivative operators -/
+
+/-- **no cell of a grid with at least two rows and two columns raises**: every neighbour lookup a row relies on
+succeeds -/
+theorem ops_total (nx ny k : Nat) (h2x : 2 ≤ nx) (h2y : 2 ≤ ny) (hk : k < nx * ny) (op : Op5) (dx dy : α)
+    (v : Nat → α) : (opTimes nx ny dx dy op v k).isSome = true := by
+  obtain ⟨t, _, h⟩ := opTimes_eq (α := α) nx ny k h2x h2y hk
+  rw [h]; rfl
+
+/-- **every generated operator maps a constant field to zero**, in every cell -/
+theorem ops_annihilate_constants (nx ny k : Nat) (h2x : 2 ≤ nx) (h2y : 2 ≤ ny) (hk : k < nx * ny) (op : Op5)
+    (dx dy c : α) : opTimes nx ny dx dy op (fun _ => c) k = some 0 := by
+  obtain ⟨t, hf, h⟩ := opTimes_quadratic (α := α) nx ny k h2x h2y hk
+  have hs : (fun _ : Nat => c) = sample ny 0 0 dx dy (quad c 0 0 0 0 0) := by
+    funext j; simp [sample, quad]
+  rw [hs, h, hf.m00 op (Op5.mem_all op)]
+  simp [quad]
+
+/-- **the first-derivative operators return the exact gradient of any linear field in every cell** -/
+theorem dx_dy_exact_linear (nx ny k : Nat) (h2x : 2 ≤ nx) (h2y : 2 ≤ ny) (hk : k < nx * ny)
+    (dx dy x0 y0 a0 a1 a2 : α) (hdx : dx ≠ 0) (hdy : dy ≠ 0) :
+    opTimes nx ny dx dy .Dx (sample ny x0 y0 dx dy (fun X Y => a0 + a1 * X + a2 * Y)) k = some a1 ∧
+    opTimes nx ny dx dy .Dy (sample ny x0 y0 dx dy (fun X Y => a0 + a1 * X + a2 * Y)) k = some a2 := by
+  obtain ⟨t, hf, h⟩ := opTimes_quadratic (α := α) nx ny k h2x h2y hk
+  have hs : (fun X Y : α => a0 + a1 * X + a2 * Y) = quad a0 a1 a2 0 0 0 := by
+    funext X Y; simp [quad]
+  rw [hs, h, h, hf.m00 _ (Op5.mem_all _), hf.m00 _ (Op5.mem_all _), hf.dx.1, hf.dx.2, hf.dy.1, hf.dy.2]
+  constructor
+  · simp only [scaleDen]; push_cast; congr 1; field_simp; ring
+  · simp only [scaleDen]; push_cast; congr 1; field_simp; ring
+
+/-- **the mixed operator returns the exact mixed derivative of any bilinear field in every cell** — in fact of any
+quadratic field: all its moments up to order two other than `m₁₁` vanish in all nine boundary classes -/
+theorem dxy_exact_bilinear (nx ny k : Nat) (h2x : 2 ≤ nx) (h2y : 2 ≤ ny) (hk : k < nx * ny)
+    (dx dy x0 y0 a0 a1 a2 a3 a4 a5 : α) (hdx : dx ≠ 0) (hdy : dy ≠ 0) :
+    opTimes nx ny dx dy .Dxy (sample ny x0 y0 dx dy (quad a0 a1 a2 a3 a4 a5)) k = some a4 := by
+  obtain ⟨t, hf, h⟩ := opTimes_quadratic (α := α) nx ny k h2x h2y hk
+  have hm := hf.dxy
+  simp only [moms, List.cons.injEq, and_true] at hm
+  obtain ⟨m1, m2, m3, m4, m5, m6⟩ := hm
+  rw [h, m1, m2, m3, m4, m5, m6]
+  simp only [scaleDen]; push_cast; congr 1; field_simp; ring
+
+/-- **all five operators are exact for quadratic fields in interior cells**
+(`Dxx → 2a₃`, `Dyy → 2a₅`, `Dxy → a₄`, `Dx`, `Dy` → the gradient at the cell centre) -/
+theorem ops_exact_quadratic_interior (nx ny k : Nat) (h2x : 2 ≤ nx) (h2y : 2 ≤ ny) (hk : k < nx * ny)
+    (hint : interiorCell nx ny k) (dx dy x0 y0 a0 a1 a2 a3 a4 a5 : α) (hdx : dx ≠ 0) (hdy : dy ≠ 0) :
+    let v := sample ny x0 y0 dx dy (quad a0 a1 a2 a3 a4 a5)
+    opTimes nx ny dx dy .Dxx v k = some (2 * a3) ∧ opTimes nx ny dx dy .Dyy v k = some (2 * a5) ∧
+    opTimes nx ny dx dy .Dxy v k = some a4 ∧
+    opTimes nx ny dx dy .Dx v k = some (a1 + 2 * a3 * cx0 ny x0 dx k + a4 * cy0 ny y0 dy k) ∧
+    opTimes nx ny dx dy .Dy v k = some (a2 + a4 * cx0 ny x0 dx k + 2 * a5 * cy0 ny y0 dy k) := by
+  intro v
+  obtain ⟨t, hf, h⟩ := opTimes_quadratic (α := α) nx ny k h2x h2y hk
+  have hi : (clsOf nx ny (k / ny) (k % ny)).interior = true := by
+    obtain ⟨i1, i2, i3, i4⟩ := hint
+    simp only [Cls.interior, clsOf, Bool.and_eq_true, Bool.not_eq_true', beq_eq_false_iff_ne, ne_eq]
+    omega
+  obtain ⟨hDx, hDy, hDxx, hDyy⟩ := hf.interior hi
+  have hDxy := hf.dxy
+  simp only [moms, List.cons.injEq, and_true] at hDx hDy hDxx hDyy hDxy
+  refine ⟨?_, ?_, ?_, ?_, ?_⟩
+  · obtain ⟨m1, m2, m3, m4, m5, m6⟩ := hDxx
+    simp only [v]; rw [h, m1, m2, m3, m4, m5, m6]
+    simp only [scaleDen, Cherab.Admt.sq]; push_cast; congr 1; field_simp; ring
+  · obtain ⟨m1, m2, m3, m4, m5, m6⟩ := hDyy
+    simp only [v]; rw [h, m1, m2, m3, m4, m5, m6]
+    simp only [scaleDen, Cherab.Admt.sq]; push_cast; congr 1; field_simp; ring
+  · obtain ⟨m1, m2, m3, m4, m5, m6⟩ := hDxy
+    simp only [v]; rw [h, m1, m2, m3, m4, m5, m6]
+    simp only [scaleDen]; push_cast; congr 1; field_simp; ring
+  · obtain ⟨m1, m2, m3, m4, m5, m6⟩ := hDx
+    simp only [v]; rw [h, m1, m2, m3, m4, m5, m6]
+    simp only [scaleDen]; push_cast; congr 1; field_simp; ring
+  · obtain ⟨m1, m2, m3, m4, m5, m6⟩ := hDy
+    simp only [v]; rw [h, m1, m2, m3, m4, m5, m6]
+    simp only [scaleDen]; push_cast; congr 1; field_simp; ring
+
+/-! ### geometry enters only through `(dx, dy)` -/
+
+/-- **independent of the origin**: the steps the code extracts from the voxel centres
+(`np.min(abs(np.diff(centres)[≠ 0]))`, column-major order) are the grid's `dx, dy > 0` wherever the grid sits; the
+stencils (`rowTable`) take no coordinates at all, so the operators are functions of `(n_x, n_y, dx, dy)` only and
+the exactness theorems above hold for every origin `(x0, y0)` and every `dx, dy ≠ 0`. -/
+theorem steps_extracted_origin_independent (nx ny : Nat) (h2x : 2 ≤ nx) (h2y : 2 ≤ ny) (x0 y0 dx dy : α)
+    (hdx : 0 < dx) (hdy : 0 < dy) :
+    extractSteps ((List.range (nx * ny)).map fun k =>
+      centre [(cx0 ny x0 dx k + dx / 2, cy0 ny y0 dy k + dy / 2), (cx0 ny x0 dx k + dx / 2, cy0 ny y0 dy k - dy / 2),
+              (cx0 ny x0 dx k - dx / 2, cy0 ny y0 dy k - dy / 2), (cx0 ny x0 dx k - dx / 2, cy0 ny y0 dy k + dy / 2)])
+      = some (dx, dy) := by
+  simp only [centre_rect]
+  exact extractSteps_full nx ny h2x h2y x0 y0 dx dy hdx hdy
+
+/-- a single row or a single column is outside the property (and the code raises `IndexError` there) -/
+theorem degenerate_grid_raises : ∀ c ∈ allCls, c.valid = false → stencil c = none := stencil_invalid
+
+/-! ### `calculate_admt`: the coefficients -/
+
+/-- **The coefficient identity.**  For every field, every value of the derivatives of ψ with `|∇ψ|² ≠ 0`, every
+`R ≠ 0`, anisotropy `≠ 0`, and every test function (through its derivatives `fx … fyy`), the combination
+`cx·fx + cy·fy + cxx·fxx + 2cxy·fxy + cyy·fyy` formed with the code's coefficients is `div(D ∇f)` as defined by the
+jet expansion `specDiv` with `D∥ = 1`, `D⊥ = 1/anisotropy` (their derivative slots are what the code feeds in:
+`Dx @ Dpar`, …). -/
+def CoefficientsMatchJet : Prop :=
+  ∀ (β : Type) [Field β] [CharZero β] (an R px py pxx pxy pyy dparx dpary dperpx dperpy fx fy fxx fxy fyy : β),
+    an ≠ 0 → R ≠ 0 → px * px + py * py ≠ 0 →
+    (coeffs an R px py pxx pxy pyy dparx dpary dperpx dperpy).cx * fx
+      + (coeffs an R px py pxx pxy pyy dparx dpary dperpx dperpy).cy * fy
+      + (coeffs an R px py pxx pxy pyy dparx dpary dperpx dperpy).cxx * fxx
+      + 2 * (coeffs an R px py pxx pxy pyy dparx dpary dperpx dperpy).cxy * fxy
+      + (coeffs an R px py pxx pxy pyy dparx dpary dperpx dperpy).cyy * fyy =
+      specDiv px py pxx pxy pyy ⟨1 / an, dperpx, dperpy⟩ ⟨1, dparx, dpary⟩ R fx fy fxx fxy fyy
+
+/-- **Isotropic case.**  Anisotropy 1 (and the derivatives of the constant `D` fields zero): the coefficients are
+those of `∂²/∂x² + ∂²/∂y² + (1/R) ∂/∂x`, whatever the flux map. -/
+def IsotropicIsLaplacian : Prop :=
+  ∀ (β : Type) [Field β] [CharZero β] (R px py pxx pxy pyy : β), R ≠ 0 → px * px + py * py ≠ 0 →
+    (coeffs 1 R px py pxx pxy pyy 0 0 0 0).cx = 1 / R ∧ (coeffs 1 R px py pxx pxy pyy 0 0 0 0).cy = 0 ∧
+    (coeffs 1 R px py pxx pxy pyy 0 0 0 0).cxx = 1 ∧ (coeffs 1 R px py pxx pxy pyy 0 0 0 0).cxy = 0 ∧
+    (coeffs 1 R px py pxx pxy pyy 0 0 0 0).cyy = 1
+
+/-- the part of the coefficient identity that holds for the source as it is *and* after the correction: everything
+except the coefficient of `∂f/∂x` (`cy, cxx, cxy, cyy` agree with the jet expansion) -/
+theorem admt_coefficients_match_jet_partial {β : Type} [Field β]
+    (an R px py pxx pxy pyy dparx dpary dperpx dperpy fy fxx fxy fyy : β)
+    (ha : an ≠ 0) (hR : R ≠ 0) (hN : px * px + py * py ≠ 0) :
+    (coeffs an R px py pxx pxy pyy dparx dpary dperpx dperpy).cy * fy
+      + (coeffs an R px py pxx pxy pyy dparx dpary dperpx dperpy).cxx * fxx
+      + 2 * (coeffs an R px py pxx pxy pyy dparx dpary dperpx dperpy).cxy * fxy
+      + (coeffs an R px py pxx pxy pyy dparx dpary dperpx dperpy).cyy * fyy =
+      specDiv px py pxx pxy pyy ⟨1 / an, dperpx, dperpy⟩ ⟨1, dparx, dpary⟩ R 0 fy fxx fxy fyy := by
+  have hN' : px ^ 2 + py ^ 2 ≠ 0 := by rwa [pow_two, pow_two]
+  simp only [coeffs, specDiv, Cherab.Admt.sq, Jet.mul_def, Jet.add_def, Jet.sub_def, Jet.div_def, Jet.const]
+  push_cast
+  field_simp
+  ring
+
+/-- **Verdict on the coefficient identity for the current source** (`dnormCxSlot` is read from
+`admt_utils.py` by the translator on every run).
+* slot `dpsidxdy` (∂ₓ|∇ψ|² = 2(ψₓψₓₓ + ψ_yψₓ_y), the corrected code): the identity holds;
+* otherwise (today: `dpsidyy`): it is **false** — refuted on the rational witness
+  `anisotropy = R = 1, ∇ψ = (1, 1), ψₓₓ = ψₓ_y = 0, ψ_yy = 1, f = x`: the code gives `cx = 0`, the operator `1/R = 1`. -/
+theorem admt_coefficients_jet_verdict :
+    match dnormCxSlot with
+    | .dpsidxdy => CoefficientsMatchJet
+    | _ => ¬ CoefficientsMatchJet := by
+  first
+  | (show CoefficientsMatchJet
+     intro β _ _ an R px py pxx pxy pyy dparx dpary dperpx dperpy fx fy fxx fxy fyy ha hR hN
+     have hN' : px ^ 2 + py ^ 2 ≠ 0 := by rwa [pow_two, pow_two]
+     simp only [coeffs, specDiv, Cherab.Admt.sq, Jet.mul_def, Jet.add_def, Jet.sub_def, Jet.div_def, Jet.const]
+     push_cast
+     field_simp
+     ring)
+  | (show ¬ CoefficientsMatchJet
+     intro h
+     have := h ℚ 1 1 1 1 0 0 1 0 0 0 0 1 0 0 0 0 (by norm_num) (by norm_num) (by norm_num)
+     norm_num [coeffs, specDiv, Cherab.Admt.sq, Jet.mul_def, Jet.add_def, Jet.sub_def, Jet.div_def, Jet.const] at this)
+
+/-- the identity implies the isotropic reduction (so the isotropic clause stands or falls with it) -/
+theorem admt_isotropic_of_match (h : CoefficientsMatchJet) : IsotropicIsLaplacian := by
+  intro β _ _ R px py pxx pxy pyy hR hN
+  have hN' : px ^ 2 + py ^ 2 ≠ 0 := by rwa [pow_two, pow_two]
+  have e := fun fx fy fxx fxy fyy => h β 1 R px py pxx pxy pyy 0 0 0 0 fx fy fxx fxy fyy one_ne_zero hR hN
+  have e1 := e 1 0 0 0 0
+  have e2 := e 0 1 0 0 0
+  have e3 := e 0 0 1 0 0
+  have e4 := e 0 0 0 1 0
+  have e5 := e 0 0 0 0 1
+  simp only [mul_one, mul_zero, add_zero, zero_add] at e1 e2 e3 e4 e5
+  refine ⟨?_, ?_, ?_, ?_, ?_⟩
+  · rw [e1]; simp only [specDiv, Jet.mul_def, Jet.add_def, Jet.sub_def, Jet.div_def, Jet.const]; field_simp; ring
+  · rw [e2]; simp only [specDiv, Jet.mul_def, Jet.add_def, Jet.sub_def, Jet.div_def, Jet.const]; field_simp; ring
+  · rw [e3]; simp only [specDiv, Jet.mul_def, Jet.add_def, Jet.sub_def, Jet.div_def, Jet.const]; field_simp; ring
+  · have : (coeffs 1 R px py pxx pxy pyy 0 0 0 0).cxy = (2 * (coeffs 1 R px py pxx pxy pyy 0 0 0 0).cxy) / 2 := by
+      field_simp
+    rw [this, e4]; simp only [specDiv, Jet.mul_def, Jet.add_def, Jet.sub_def, Jet.div_def, Jet.const]; field_simp; ring
+  · rw [e5]; simp only [specDiv, Jet.mul_def, Jet.add_def, Jet.sub_def, Jet.div_def, Jet.const]; field_simp; ring
+
+/-- **Verdict on the isotropic clause for the current source**: with the corrected slot, anisotropy 1 gives exactly
+the Laplacian coefficients for every flux map; with the present slot it does not (same witness: `cx = 0 ≠ 1/R`). -/
+theorem admt_isotropic_laplacian_verdict :
+    match dnormCxSlot with
+    | .dpsidxdy => IsotropicIsLaplacian
+    | _ => ¬ IsotropicIsLaplacian := by
+  first
+  | (show IsotropicIsLaplacian
+     intro β _ _ R px py pxx pxy pyy hR hN
+     have hN' : px ^ 2 + py ^ 2 ≠ 0 := by rwa [pow_two, pow_two]
+     simp only [coeffs, Cherab.Admt.sq]
+     push_cast
+     refine ⟨?_, ?_, ?_, ?_, ?_⟩ <;> field_simp <;> ring)
+  | (show ¬ IsotropicIsLaplacian
+     intro h
+     have := (h ℚ 1 1 1 0 0 1 (by norm_num) (by norm_num)).1
+     norm_num [coeffs, Cherab.Admt.sq] at this)
+
+/-- **finite**: every divisor met while evaluating the coefficients is one of `anisotropy`, `|∇ψ|²`, `R`;
+none vanishes under the property's hypotheses (the list is generated from the `/` nodes of the source) -/
+theorem admt_denominators_nonzero {β : Type} [Field β]
+    (an R px py pxx pxy pyy dparx dpary dperpx dperpy : β) (ha : an ≠ 0) (hR : R ≠ 0)
+    (hN : px * px + py * py ≠ 0) :
+    ∀ d ∈ denominators an R px py pxx pxy pyy dparx dpary dperpx dperpy, d ≠ 0 := by
+  intro d hd
+  simp only [denominators, Cherab.Admt.sq, List.mem_cons, List.not_mem_nil, or_false] at hd
+  rcases hd with h | h | h | h | h | h | h | h | h | h <;> rw [h] <;> assumption
+
+/-! ### `calculate_admt` on the generated operators of a full grid -/
+
+/-- the dense operators returned by `generate_derivative_operators` for the full grid (steps `gdx, gdy`) -/
+def genOp (nx ny : Nat) (gdx gdy : α) (op : Op5) (i j : Nat) : α :=
+  match rowTable (fullCells nx ny) (cellOf ny i) with
+  | some t => opEntry (fullCells nx ny) gdx gdy (cellOf ny i) t op j
+  | none => 0
+
+theorem opTimes_genOp (nx ny : Nat) (gdx gdy : α) (op : Op5) (v : Nat → α) (k : Nat) (x : α)
+    (h : opTimes nx ny gdx gdy op v k = some x) : dotN (nx * ny) (genOp nx ny gdx gdy op k) v = x := by
+  unfold opTimes at h
+  unfold genOp
+  cases ht : rowTable (fullCells nx ny) (cellOf ny k) with
+  | none => rw [ht] at h; simp at h
+  | some t => rw [ht] at h; simpa using h
+
+/-- discrete `|∇ψ|²` in cell `i`, as `calculate_admt` forms it -/
+def normalisationAt (nx ny : Nat) (gdx gdy : α) (psi : Nat → α) (i : Nat) : α :=
+  dotN (nx * ny) (genOp nx ny gdx gdy .Dx i) psi * dotN (nx * ny) (genOp nx ny gdx gdy .Dx i) psi
+    + dotN (nx * ny) (genOp nx ny gdx gdy .Dy i) psi * dotN (nx * ny) (genOp nx ny gdx gdy .Dy i) psi
+
+/-- **the ADMT operator annihilates constants**: every row sums to zero — for every flux map, anisotropy, radius,
+with or without the slip in `dnorm_term_cx` (it only needs the row to be a combination of the five operator rows) -/
+theorem admt_annihilates_constants (nx ny i : Nat) (h2x : 2 ≤ nx) (h2y : 2 ≤ ny) (hi : i < nx * ny)
+    (sqrt : α → α) (radii psi : Nat → α) (gdx gdy dx dy an c : α) :
+    dotN (nx * ny) (admtEntry sqrt (nx * ny) radii (genOp nx ny gdx gdy) psi dx dy an i) (fun _ => c) = 0 := by
+  unfold admtEntry admtEntryOf
+  rw [dotN_entry]
+  have z : ∀ op, dotN (nx * ny) (genOp nx ny gdx gdy op i) (fun _ => c) = 0 := fun op =>
+    opTimes_genOp nx ny gdx gdy op _ i 0 (ops_annihilate_constants nx ny i h2x h2y hi op gdx gdy c)
+  simp only [z, entry]
+  push_cast
+  ring
+
+/-- the coefficients `calculate_admt` uses in row `i` of a full grid: the derivatives of the constant `D` fields
+vanish because the operators annihilate constants -/
+theorem admtCoeffs_full (nx ny i : Nat) (h2x : 2 ≤ nx) (h2y : 2 ≤ ny) (hi : i < nx * ny)
+    (radii psi : Nat → α) (gdx gdy an : α) :
+    admtCoeffs (nx * ny) radii (genOp nx ny gdx gdy) psi an i =
+      coeffs an (radii i)
+        (dotN (nx * ny) (genOp nx ny gdx gdy .Dx i) psi) (dotN (nx * ny) (genOp nx ny gdx gdy .Dy i) psi)
+        (dotN (nx * ny) (genOp nx ny gdx gdy .Dxx i) psi) (dotN (nx * ny) (genOp nx ny gdx gdy .Dxy i) psi)
+        (dotN (nx * ny) (genOp nx ny gdx gdy .Dyy i) psi) 0 0 0 0 := by
+  have z : ∀ op (c : α), dotN (nx * ny) (genOp nx ny gdx gdy op i) (fun _ => c) = 0 := fun op c =>
+    opTimes_genOp nx ny gdx gdy op _ i 0 (ops_annihilate_constants nx ny i h2x h2y hi op gdx gdy c)
+  unfold admtCoeffs
+  simp only [z]
+
+/-- **anisotropy one ⇒ Laplacian, entry by entry** (given the isotropic coefficient clause, see
+`admt_isotropic_laplacian_verdict`): `calculate_admt(…, anisotropy = 1) = (Dxx + Dyy + diag(1/R) Dx)·√(dx·dy)` for
+every flux map whose discrete gradient does not vanish -/
+theorem admt_isotropic_is_laplacian (hiso : IsotropicIsLaplacian) [CharZero α]
+    (nx ny i j : Nat) (h2x : 2 ≤ nx) (h2y : 2 ≤ ny) (hi : i < nx * ny)
+    (sqrt : α → α) (radii psi : Nat → α) (gdx gdy dx dy : α)
+    (hR : radii i ≠ 0) (hN : normalisationAt nx ny gdx gdy psi i ≠ 0) :
+    admtEntry sqrt (nx * ny) radii (genOp nx ny gdx gdy) psi dx dy 1 i j =
+      (genOp nx ny gdx gdy .Dxx i j + genOp nx ny gdx gdy .Dyy i j + genOp nx ny gdx gdy .Dx i j / radii i)
+        * sqrt (dx * dy) := by
+  unfold admtEntry admtEntryOf
+  rw [admtCoeffs_full nx ny i h2x h2y hi]
+  obtain ⟨h1, h2, h3, h4, h5⟩ := hiso α (radii i) _ _ (dotN (nx * ny) (genOp nx ny gdx gdy .Dxx i) psi)
+    (dotN (nx * ny) (genOp nx ny gdx gdy .Dxy i) psi) (dotN (nx * ny) (genOp nx ny gdx gdy .Dyy i) psi) hR hN
+  rw [h1, h2, h3, h4, h5]
+  simp only [entry, finalScale]
+  push_cast
+  ring
+
+/-- **consistency** (given the coefficient identity, see `admt_coefficients_jet_verdict`): in an interior cell the
+ADMT row applied to the samples of any quadratic `f` is `√(dx·dy) · div(D ∇f)` evaluated — through the jet expansion
+— with the discrete derivatives of ψ at that cell and the *exact* derivatives of `f` at the cell centre.  Together
+with the exactness of the five stencils on quadratics this is second-order consistency of the discretisation; the
+limit statement itself is not formalised. -/
+theorem admt_consistent_interior (hjet : CoefficientsMatchJet) [CharZero α]
+    (nx ny i : Nat) (h2x : 2 ≤ nx) (h2y : 2 ≤ ny) (hi : i < nx * ny) (hint : interiorCell nx ny i)
+    (sqrt : α → α) (radii psi : Nat → α) (gdx gdy dx dy an x0 y0 a0 a1 a2 a3 a4 a5 : α)
+    (hgx : gdx ≠ 0) (hgy : gdy ≠ 0) (ha : an ≠ 0)
+    (hR : radii i ≠ 0) (hN : normalisationAt nx ny gdx gdy psi i ≠ 0) :
+    dotN (nx * ny) (admtEntry sqrt (nx * ny) radii (genOp nx ny gdx gdy) psi dx dy an i)
+        (sample ny x0 y0 gdx gdy (quad a0 a1 a2 a3 a4 a5)) =
+      specDiv (dotN (nx * ny) (genOp nx ny gdx gdy .Dx i) psi) (dotN (nx * ny) (genOp nx ny gdx gdy .Dy i) psi)
+          (dotN (nx * ny) (genOp nx ny gdx gdy .Dxx i) psi) (dotN (nx * ny) (genOp nx ny gdx gdy .Dxy i) psi)
+          (dotN (nx * ny) (genOp nx ny gdx gdy .Dyy i) psi) ⟨1 / an, 0, 0⟩ ⟨1, 0, 0⟩ (radii i)
+          (a1 + 2 * a3 * cx0 ny x0 gdx i + a4 * cy0 ny y0 gdy i)
+          (a2 + a4 * cx0 ny x0 gdx i + 2 * a5 * cy0 ny y0 gdy i) (2 * a3) a4 (2 * a5)
+        * sqrt (dx * dy) := by
+  obtain ⟨e1, e2, e3, e4, e5⟩ := ops_exact_quadratic_interior nx ny i h2x h2y hi hint gdx gdy x0 y0
+    a0 a1 a2 a3 a4 a5 hgx hgy
+  unfold admtEntry admtEntryOf
+  rw [dotN_entry, admtCoeffs_full nx ny i h2x h2y hi,
+    opTimes_genOp _ _ _ _ _ _ _ _ e1, opTimes_genOp _ _ _ _ _ _ _ _ e2, opTimes_genOp _ _ _ _ _ _ _ _ e3,
+    opTimes_genOp _ _ _ _ _ _ _ _ e4, opTimes_genOp _ _ _ _ _ _ _ _ e5]
+  rw [← hjet α an (radii i) _ _ _ _ _ 0 0 0 0 _ _ _ _ _ ha hR hN]
+  simp only [entry, finalScale]
+  push_cast
+  ring
+
+/-! ### non-vacuity -/
+
+/-- the nine boundary classes all occur already on a 3 × 3 grid, and voxel 4 is interior -/
+example : interiorCell 3 3 4 := by unfold interiorCell; decide
+example : (List.range 9).map (fun k => clsOf 3 3 (k / 3) (k % 3)) =
+    [⟨true, false, true, false⟩, ⟨true, false, false, false⟩, ⟨true, false, false, true⟩,
+     ⟨false, false, true, false⟩, ⟨false, false, false, false⟩, ⟨false, false, false, true⟩,
+     ⟨false, true, true, false⟩, ⟨false, true, false, false⟩, ⟨false, true, false, true⟩] := by decide
+
+/-- a concrete instance: `∂/∂x` of `f = 1 + 2x − 3y` in the corner voxel of a 2 × 2 grid with `dx = 1/2, dy = 3` -/
+example : opTimes 2 2 (1 / 2 : ℚ) 3 .Dx (sample 2 5 7 (1 / 2) 3 (fun X Y => 1 + 2 * X + (-3) * Y)) 3 = some 2 :=
+  (dx_dy_exact_linear 2 2 3 (by decide) (by decide) (by decide) (1 / 2) 3 5 7 1 2 (-3) (by norm_num) (by norm_num)).1
+
+/-- the hypotheses of the ADMT theorems are satisfiable: a linear flux map `ψ = x + y` has discrete
+`|∇ψ|² = 2 ≠ 0` in every voxel of every grid -/
+example (nx ny i : Nat) (h2x : 2 ≤ nx) (h2y : 2 ≤ ny) (hi : i < nx * ny) :
+    normalisationAt nx ny (1 : ℚ) 1 (sample ny 0 0 1 1 (fun X Y => 0 + 1 * X + 1 * Y)) i ≠ 0 := by
+  obtain ⟨e1, e2⟩ := dx_dy_exact_linear nx ny i h2x h2y hi (1 : ℚ) 1 0 0 0 1 1 one_ne_zero one_ne_zero
+  unfold normalisationAt
+  rw [opTimes_genOp _ _ _ _ _ _ _ _ e1, opTimes_genOp _ _ _ _ _ _ _ _ e2]
+  norm_num
+
+/-- the witness behind the negative verdicts, evaluated: today's code gives `cx = 0` where `1/R = 1` is required -/
+example : dnormCxSlot = .dpsidyy → (coeffs (1 : ℚ) 1 1 1 0 0 1 0 0 0 0).cx = 0 := by
+  intro h
+  first
+  | (norm_num [coeffs, Cherab.Admt.sq]; done)
+  | (exfalso; revert h; decide)
+
 end Cherab.Props.C20
